@@ -41,7 +41,7 @@ type SysWorld struct {
 	Pull    http.Handler
 	Admin   http.Handler
 
-	Disk *Disk
+	Disk     *Disk
 	SimStore *SimStore
 
 	// OnStore lets a world attach observers before any product code sees the store.
